@@ -108,12 +108,12 @@ class HyperSpec(Spec):
                 "rwds-falls-during-latency"]
 
     def env0(self):
-        # (pend, age, tx, hold, last, ntx)
-        return (None, 0, None, None, (0, 0, 0, 0), 0)
+        # (pend, age, tx, hold, last, ntx, pidle)   pidle: `idle` was high in the previous cycle
+        return (None, 0, None, None, (0, 0, 0, 0), 0, 0)
 
     # ------------------------------------------------------------------ menus
     def actions(self, env):
-        pend, age, tx, hold, last, ntx = env
+        pend, age, tx, hold, last, ntx, pidle = env
         acts = []
         closing = True          # the interface may show `idle` in the coming cycle (apply prunes starts when it does not)
         if tx is None or tx[7]:
@@ -157,7 +157,7 @@ class HyperSpec(Spec):
 
     # ------------------------------------------------------------------ one cycle
     def apply(self, cur, env, a):
-        pend, age, tx, hold, last, ntx = env
+        pend, age, tx, hold, last, ntx, pidle = env
         s, rwds, q, final, w = a
         start = 0
         if hold is not None:
@@ -180,7 +180,6 @@ class HyperSpec(Spec):
                      start_transfer=start, final_word=final, write_data=WD_VALS[w], dq_i=DQ_VALS[q], rwds_i=rwds)
 
         # ---- bus monitor
-        ended = False
         if tx is None:
             if o.cs:
                 if pend is None:
@@ -207,7 +206,7 @@ class HyperSpec(Spec):
                 self.cover[{"memread-done": "read-done"}.get(key, key)] += 1
                 if wr and acc >= 2: self.cover["multiword-write"] += 1
                 if not wr and acc >= 2: self.cover["multiword-read"] += 1
-                tx = None; ended = True
+                tx = None
             else:
                 pulse = o.clk_en
                 rl = not (rwds & 1)
@@ -289,13 +288,13 @@ class HyperSpec(Spec):
             pend = fields
             age = 0
             last = fields
-            if tx is not None or ended: self.cover["back-to-back-request"] += 1
+            if ntx >= 2 and not pidle: self.cover["back-to-back-request"] += 1     # taken in the first cycle idle is high again
         elif pend is not None and tx is None:
             age += 1
             if age > 16:
                 raise Violation("request-never-reaches-bus", dict(request=self._rq(pend), cycles_waited=age))
         self.outcomes.add((o.cs, o.clk_en, o.dq_e, o.rwds_e, o.idle, o.read_ready, o.write_ready))
-        return (pend, age, tx, hold, last, ntx)
+        return (pend, age, tx, hold, last, ntx, int(o.idle))
 
     def _rq(self, req):
         return dict(address=hex(req[0]), register_space=req[1], perform_write=req[2], single_page=req[3])
